@@ -189,6 +189,12 @@ impl CliOut {
     }
 }
 
+pub fn shim_path() -> PathBuf {
+    std::env::var("VERIF_SHIM")
+        .map(PathBuf::from)
+        .unwrap_or_else(|_| PathBuf::from("/verif/.build/libfsfault.so"))
+}
+
 pub fn bin_dir() -> PathBuf {
     std::env::var("VERIF_BIN_DIR")
         .map(PathBuf::from)
@@ -265,7 +271,9 @@ impl World {
         }
         w.write_config()?;
         if spec.git {
-            let mut gi = vec!["monorail-out".to_string(), ".ctl".to_string()];
+            // the configuration file carries the world's ports; keeping it out of the repository makes
+            // commit ids a function of the scenario alone
+            let mut gi = vec!["monorail-out".to_string(), ".ctl".to_string(), "/Monorail.json".to_string(), "/.backup-out".to_string(), "/.fs.log".to_string()];
             gi.extend(spec.gitignore.iter().cloned());
             w.write_file(".gitignore", &(gi.join("\n") + "\n"))?;
             w.git(&["init", "-q", "-b", "main"])?;
@@ -412,6 +420,14 @@ impl World {
             cmd.env(k, v);
         }
         ctl.spawn(actor, cmd, false).map_err(|e| e.to_string())
+    }
+
+    /// Route this world's monorail processes through the shim with a seeded getrandom(): the
+    /// iteration order of std HashMap/HashSet (e.g. explicit -t targets) becomes a function of `seed`.
+    pub fn set_rand_seed(&mut self, seed: u64) {
+        self.knobs.retain(|(k, _)| k != "LD_PRELOAD" && k != "FSFAULT_RANDSEED");
+        self.knobs.push(("LD_PRELOAD".into(), shim_path().to_string_lossy().into_owned()));
+        self.knobs.push(("FSFAULT_RANDSEED".into(), seed.to_string()));
     }
 
     pub fn out_dir(&self) -> PathBuf {
